@@ -552,3 +552,77 @@ func (a access) String(w *World) string {
 	}
 	return fmt.Sprintf("%s %s in %s [threads %v, locks %s]", k, w.ipos(a.In), w.fname(a.Fn), a.Threads, fmtSet(a.Locks))
 }
+
+// ---- scalar / pointer / interface fields ----
+
+// FieldSubjects enumerates the non-container fields of package struct types (payload and configuration types
+// excepted; mutexes excepted) with their accesses. An access through sync/atomic is marked "atomic".
+func (t *threads) FieldSubjects() []*subject {
+	w := t.w
+	subs := map[string]*subject{}
+	sc := w.Main.Pkg.Scope()
+	for _, n := range sc.Names() {
+		tn, ok := sc.Lookup(n).(*types.TypeName)
+		if !ok {
+			continue
+		}
+		st, ok := tn.Type().Underlying().(*types.Struct)
+		if !ok || payloadTypes[n] || configTypes[n] {
+			continue
+		}
+		for i := 0; i < st.NumFields(); i++ {
+			f := st.Field(i)
+			if isContainerType(f.Type()) {
+				continue
+			}
+			ts := types.TypeString(f.Type(), nil)
+			if ts == "sync.Mutex" || ts == "sync.RWMutex" {
+				continue
+			}
+			if _, isChan := f.Type().Underlying().(*types.Chan); isChan {
+				continue // channels synchronise themselves; the field is set at construction
+			}
+			subs[n+"."+f.Name()] = &subject{Name: n + "." + f.Name(), Type: n}
+		}
+	}
+	for _, fn := range w.All {
+		eachInstr(fn, func(in ssa.Instruction) {
+			fa, ok := in.(*ssa.FieldAddr)
+			if !ok {
+				return
+			}
+			s := subs[fieldRef(fa)]
+			if s == nil {
+				return
+			}
+			fresh := w.isFreshValue(fn, fa.X, 0)
+			for _, r := range *fa.Referrers() {
+				switch y := r.(type) {
+				case *ssa.Store:
+					if y.Addr == ssa.Value(fa) {
+						s.Accesses = append(s.Accesses, access{In: r, Fn: fn, Write: true, Fresh: fresh, Locks: t.locksAt(r), Threads: t.threadNames(fn), What: "store"})
+					}
+				case *ssa.UnOp:
+					if y.Op == token.MUL {
+						s.Accesses = append(s.Accesses, access{In: r, Fn: fn, Write: false, Fresh: fresh, Locks: t.locksAt(r), Threads: t.threadNames(fn), What: "load"})
+					}
+				case ssa.CallInstruction:
+					name := w.calleeName(y)
+					if strings.HasPrefix(name, "sync/atomic.") {
+						wr := !strings.Contains(name, "Load")
+						s.Accesses = append(s.Accesses, access{In: r, Fn: fn, Write: wr, Fresh: fresh, Locks: map[string]bool{"atomic": true}, Threads: t.threadNames(fn), What: "atomic"})
+					}
+				case *ssa.FieldAddr:
+					// a field of an embedded struct value: accounted to the inner field
+				}
+			}
+		})
+	}
+	var out []*subject
+	for _, k := range sortedKeys(subs) {
+		out = append(out, subs[k])
+	}
+	return out
+}
+
+var configTypes = map[string]bool{"ProxyConfig": true, "ProxiesConfigure": true, "HostIp": true, "PreRouteItem": true}
